@@ -175,12 +175,12 @@ def main():
         import regen_more
         regen_more.run(STATUS, write_if_changed, ROOT, REPO)
     import glob, importlib
-    for f in sorted(glob.glob(os.path.join(HERE, 'regen_c[0-9][0-9].py'))):
+    for f in sorted(glob.glob(os.path.join(HERE, 'regen_c[0-9][0-9]*.py'))):
         name = os.path.basename(f)[:-3]
         try:
             importlib.import_module(name).run(STATUS, write_if_changed, ROOT, REPO)
         except Exception:
-            status(name, False, [name[6:].upper()], 'translator crashed: ' + traceback.format_exc()[-400:])
+            status(name, False, [name[6:9].upper()], 'translator crashed: ' + traceback.format_exc()[-400:])
     os.makedirs(os.path.join(ROOT, 'build'), exist_ok=True)
     with open(os.path.join(ROOT, 'build', 'regen_status.json'), 'w') as f:
         json.dump(STATUS, f, indent=1)
